@@ -5,6 +5,9 @@ import Sonic.Model.Ftoa
 import Sonic.Model.Pool
 import Sonic.Model.Quote
 import Sonic.Model.Stack
+import Sonic.Model.Skip
+import Sonic.Model.OnDemand
+import Sonic.Spec.Json
 
 /-!
 # Source constants = model constants
@@ -69,5 +72,26 @@ theorem scan_consts :
 theorem pool_consts :
     (∀ x, Sonic.Model.Pool.alignUp x = (x + poolAlignMask) / (poolAlignMask + 1) * (poolAlignMask + 1)) ∧
     poolDefaultChunkA * poolDefaultChunkB = Sonic.Gen.SONIC_DEFAULT_CHUNK_CAPACITY := ⟨fun _ => rfl, rfl⟩
+
+/-- one lane of `pshufb` (`_mm_shuffle_epi8` / `_mm256_shuffle_epi8`): the index byte `b` selects entry `b & 15` of the 16-byte
+    table, or yields 0 when bit 7 of `b` is set -/
+def pshufbLane (tab : List Nat) (b : Nat) : Nat := if b ≥ 128 then 0 else tab.getD (b % 16) 0
+
+/-- a byte as `int8_t` (the SSE comparisons `cmplt` / `cmpgt` are signed) -/
+def toInt8 (b : Nat) : Int := if b ≥ 128 then (b : Int) - 256 else (b : Int)
+
+/-- C01/C02/C03/C05/C10/C11/C15/C20: the SIMD literal constants of the scanners, extracted from the source.
+    `GetNonSpaceBits` marks byte `b` as whitespace iff `pshufb(table, b) == b`; for BOTH tables (AVX2, SSE) and every byte value that is
+    exactly the scalar `IsSpace` the models use (so a filler value that coincides with some byte's own nibble slot breaks this theorem).
+    `StringBlock::Find` compares with backslash, quote and the control-byte bound; the SSE form `v < 0x20 ∧ v > -1` (signed) is the
+    unsigned `v ≤ 0x1f` of the AVX2 form. -/
+theorem simd_consts :
+    (∀ b, b < 256 → (pshufbLane wsTabAvx2 b == b) = Sonic.Model.Parse.isSpace b) ∧
+    (∀ b, b < 256 → (pshufbLane wsTabSse b == b) = Sonic.Model.Parse.isSpace b) ∧
+    wsTabAvx2.length = 16 ∧ wsTabSse.length = 16 ∧
+    (∀ b, b < 256 → Sonic.Model.OnDemand.isSpace b = Sonic.Model.Parse.isSpace b ∧ Sonic.Spec.Json.isWs b = Sonic.Model.Parse.isSpace b) ∧
+    (sbBackslashAvx2, sbQuoteAvx2, sbCtrlMaxAvx2) = (0x5C, 0x22, 0x1F) ∧ (sbBackslashSse, sbQuoteSse) = (0x5C, 0x22) ∧
+    (∀ b, b < 256 → (decide (toInt8 b < toInt8 sbCtrlLtSse) && decide (toInt8 b > toInt8 sbCtrlGtSse)) = decide (b ≤ sbCtrlMaxAvx2)) := by
+  refine ⟨by decide +kernel, by decide +kernel, rfl, rfl, by decide +kernel, rfl, rfl, by decide +kernel⟩
 
 end Sonic.Props.Consts
